@@ -22,8 +22,12 @@ deriving DecidableEq, Repr, Inhabited
 
 namespace Num
 def ofInt (i : Int) : Num := ⟨false, i, 1⟩
-def beq (a b : Num) : Bool := a.n * (b.d : Int) == b.n * (a.d : Int)
-def blt (a b : Num) : Bool := decide (a.n * (b.d : Int) < b.n * (a.d : Int))
+/-- `d = 0` encodes ±infinity (a number literal too large for a double); two
+infinities are compared by sign. -/
+def beq (a b : Num) : Bool :=
+  if a.d = 0 ∧ b.d = 0 then a.n == b.n else a.n * (b.d : Int) == b.n * (a.d : Int)
+def blt (a b : Num) : Bool :=
+  if a.d = 0 ∧ b.d = 0 then decide (a.n < b.n) else decide (a.n * (b.d : Int) < b.n * (a.d : Int))
 def isZero (a : Num) : Bool := a.n == 0
 end Num
 
